@@ -67,6 +67,9 @@ func corsConfigs() []corsCfg {
 		}
 	}
 	out = append(out, corsCfg{Origins: []string{"https://a"}, MaxAge: -2})
+	// an allow-list without any of the CORS-safelisted names; the service's own origin as a list member
+	out = append(out, corsCfg{Origins: []string{"https://a"}, Headers: []string{"X-Tok"}, Cred: true},
+		corsCfg{Origins: []string{"http://h.example", "https://a"}, Headers: []string{"Content-Type"}, Exposed: []string{"X-E"}, Cred: true})
 	// an origin that contains '*' without being "*": an ordinary list entry (never matched by a browser's Origin)
 	out = append(out, corsCfg{Origins: []string{"https://*.a", "https://a"}, Headers: []string{"Content-Type"}},
 		corsCfg{Origins: []string{"https://*.a"}, Cred: true})
@@ -113,6 +116,7 @@ type corsReq struct {
 	Method, Path, Origin, ACRM, ACRH string
 	HasOrigin, HasACRH               bool
 	Origin2                          string // a second Origin field line (the request's origin is what Header.Get answers: the first)
+	PreVary                          string // a Vary member that is on the response before the router sees the request
 }
 
 func (q corsReq) req() hv.Req {
@@ -138,7 +142,8 @@ func (q corsReq) req() hv.Req {
 		}
 		multi["Origin"] = []string{q.Origin2}
 	}
-	return hv.Req{Method: q.Method, Path: q.Path, Header: h, Multi: multi}
+	// every request names the service's own host: an Origin that happens to equal scheme://Host is an origin like any other
+	return hv.Req{Method: q.Method, Path: q.Path, Host: "h.example", Header: h, Multi: multi, PreVary: q.PreVary}
 }
 
 func corsRequests(hostile bool, c corsCfg) []corsReq {
@@ -147,7 +152,7 @@ func corsRequests(hostile bool, c corsCfg) []corsReq {
 		v   string
 		has bool
 	}
-	origins := []org{{"", false}, {"https://a", true}, {"https://b", true}, {"https://evil", true}, {"HTTPS://A", true}, {"https://a.evil", true}, {"*", true}, {"null", true}}
+	origins := []org{{"", false}, {"https://a", true}, {"https://b", true}, {"https://evil", true}, {"HTTPS://A", true}, {"https://a.evil", true}, {"*", true}, {"null", true}, {"http://h.example", true}}
 	acrhs := []org{{"", false}, {"Content-Type", true}, {"content-type", true}, {"CONTENT-TYPE", true}, {" content-type , x-tok ", true}, {"X-Bad", true}, {"content-type,x-bad", true}}
 	if hostile {
 		acrhs = append(acrhs, org{",", true}, org{"", true}, org{"\xff", true})
@@ -188,6 +193,14 @@ func corsRequests(hostile bool, c corsCfg) []corsReq {
 	addH(" \nX-Bad\n")
 	addH("Content-Type\nX-Bad") // the list spread over two field lines: an allowed name first, a foreign one on the second line
 	addH("X-Bad\ncontent-type")
+	// the CORS-safelisted request headers are ordinary names to this check: allowed only when configured
+	addH("Accept")
+	addH("accept-language")
+	addH("Content-Language")
+	// long lists: every member counts, the 33rd like the first
+	addH(strings.Repeat("content-type,", 33) + "x-bad")
+	addH(strings.Repeat(",", 40) + "x-bad")
+	addH(strings.Repeat("content-type\n", 20) + "x-bad\n" + strings.Repeat("content-type\n", 20))
 	addH("content-type\t") // optional white space around a list member is SP or HTAB
 	addH("\tContent-Type")
 	if len(named) > 1 {
@@ -208,6 +221,14 @@ func corsRequests(hostile bool, c corsCfg) []corsReq {
 						out = append(out, corsReq{Method: m, Path: p, Origin: o.v, HasOrigin: o.has, ACRM: am, ACRH: ah.v, HasACRH: ah.has})
 					}
 				}
+			}
+		}
+	}
+	// a front handler has already put a Vary member on the response whose text contains that of the members CORS adds
+	for _, m := range []string{"GET", "OPTIONS"} {
+		for _, am := range []string{"", "GET"} {
+			for _, pv := range []string{"X-Original-Host", "Accept-Encoding, X-Origin", "access-control-request-method-override"} {
+				out = append(out, corsReq{Method: m, Path: "/r", Origin: "https://a", HasOrigin: true, ACRM: am, PreVary: pv})
 			}
 		}
 	}
